@@ -1,0 +1,42 @@
+//go:build verif
+
+package hh
+
+import (
+	"os"
+	"sync/atomic"
+)
+
+var verifPointFn atomic.Value // func(name string)
+
+// VerifSetPointFn installs the callback invoked at named steps (build tag "verif" only).
+func VerifSetPointFn(f func(name string)) { verifPointFn.Store(f) }
+
+func verifPoint(name string) {
+	if f, ok := verifPointFn.Load().(func(string)); ok && f != nil {
+		f(name)
+	}
+}
+
+// VerifOpenProcessor opens the processor's queue without starting the background sender, so
+// that SendWrite can be driven step by step.
+func VerifOpenProcessor(n *NodeProcessor) error {
+	n.mu.Lock()
+	defer n.mu.Unlock()
+	n.done = make(chan struct{})
+	if err := os.MkdirAll(n.dir, 0700); err != nil {
+		return err
+	}
+	q, err := newQueue(n.dir, n.MaxSize, n.MaxWritesPending)
+	if err != nil {
+		return err
+	}
+	if err := q.Open(); err != nil {
+		return err
+	}
+	n.queue = q
+	return nil
+}
+
+// VerifProcessorQueue gives the processor's queue to the harness.
+func VerifProcessorQueue(n *NodeProcessor) *VerifQueue { return &VerifQueue{n.queue} }
